@@ -118,7 +118,12 @@ var templateKeep = map[string]bool{
 	"i": true, "c": true, "undefined": true, "variable": true, "constant": true, "read": true, "only": true, "Object": true, "Class": true,
 }
 
+var sigHintRe = regexp.MustCompile(`^\(.*\) -> .* \[[ic]/(public|private|protected)\]$`)
+
 func msgTemplate(msg string) string {
+	if m := sigHintRe.FindStringSubmatch(msg); m != nil {
+		return "signature-hint[" + m[1] + "]"
+	}
 	msg = quotedRe.ReplaceAllString(msg, "'_'")
 	msg = digitsRe.ReplaceAllString(msg, "N")
 	msg = identRe.ReplaceAllStringFunc(msg, func(w string) string {
